@@ -47,7 +47,10 @@ Mutate(m) == /\ edits < MaxEdits
                 /\ prev' = [kind |-> "mutate", effective |-> Effective(c, m), spec_same |-> SpecId(c2) = SpecId(c),
                             impl_same |-> ImplId(c2, r') = ImplId(c, r), route_kept |-> r' = r]
              /\ edits' = edits + 1 /\ cache' = "empty" /\ UNCHANGED base
-Reroute(r2) == /\ r2 \in RoutesOf(c) /\ r2 # r
+\* reroutes explored here: the routes that differ from the default route in at most one factor
+\* (the combined routes of RoutesOf are exercised by the conformance run, not by this graph)
+MCRoutes(cc) == {rr \in RoutesOf(cc) : Cardinality({f \in DOMAIN rr : rr[f] # R0(cc)[f]}) <= 1}
+Reroute(r2) == /\ r2 \in MCRoutes(c) /\ r2 # r
                /\ r' = r2 /\ cache' = "empty"
                /\ prev' = [kind |-> "reroute", spec_same |-> TRUE, impl_same |-> ImplId(c, r2) = ImplId(c, r)]
                /\ UNCHANGED <<base, c, edits>>
@@ -55,7 +58,7 @@ Read == /\ cache = "empty" /\ cache' = "filled"
         /\ prev' = [kind |-> "read", spec_same |-> TRUE, impl_same |-> TRUE]
         /\ UNCHANGED <<base, c, r, edits>>
 Next == \/ \E m \in EditsOf(c) : Mutate(m)
-        \/ \E r2 \in RoutesOf(c) : Reroute(r2)
+        \/ \E r2 \in MCRoutes(c) : Reroute(r2)
         \/ Read
 Spec == Init /\ [][Next]_vars
 
